@@ -68,6 +68,24 @@ pub fn align_lc_ids() {
     }
 }
 
+/// like align_lc_ids but returns the aligned value: ids of the following run are value+1, value+2, ...
+pub fn align_lc_ids_get() -> u32 {
+    let mut m = TMsg { ecu: 0, boot: 0, rx_us: 1, ts: 0, has_ts: false, kind: K_NOEXT, app: 0, mcnt: 0, n: 0, flags: 0 }.to_dlt(0);
+    loop {
+        let lc = Lifecycle::new(&mut m);
+        if lc.id() % 1024 == 0 {
+            return lc.id();
+        }
+    }
+}
+
+/// the value the next align_lc_ids_get() will return (consumes one id)
+pub fn peek_next_aligned_base() -> u32 {
+    let mut m = TMsg { ecu: 0, boot: 0, rx_us: 1, ts: 0, has_ts: false, kind: K_NOEXT, app: 0, mcnt: 0, n: 0, flags: 0 }.to_dlt(0);
+    let id = Lifecycle::new(&mut m).id();
+    (id / 1024 + 1) * 1024
+}
+
 pub fn run_stage(batches: Vec<Vec<DltMessage>>, ctx: &mut Ctx) -> Result<StageResult, Violation> {
     align_lc_ids();
     let res = sh::slot(StageResult::default());
